@@ -351,4 +351,24 @@ def startEvs (mk : Nat → Nat → Option Nat) (v timeout latency : Nat) (full :
   [.op (.restart v),
    if answered (mk timeout 0) 0 latency then .op (.sync full t ps ds) else .failed full]
 
+/-! ### The refresh worker (`agdservice.RefreshWorker.refreshInALoop`) and panics -/
+
+/-- One tick of the refresh worker: the `Refresh` it runs is an event of the history (applied,
+failed request, failed store), or it panics inside (a converter of `backendpb` dereferencing an
+absent part of the backend's answer). -/
+inductive Tick
+  | ev (e : Ev)
+  | panic
+
+/-- The events a sequence of ticks leaves in the history.  `refreshInALoop` defers
+`slogutil.RecoverAndLog` OUTSIDE its `for` loop: the first panic is logged, the goroutine returns,
+and no later tick refreshes anything (the process itself lives on and keeps answering look-ups). -/
+def workerEvs : List Tick → List Ev
+  | [] => []
+  | .ev e :: r => e :: workerEvs r
+  | .panic :: _ => []
+
+/-- A tick whose answer makes the conversion panic (`panics`) or not. -/
+def tickOf (panics : Bool) (e : Ev) : Tick := if panics then .panic else .ev e
+
 end Agd.ProfileDB
